@@ -8,6 +8,7 @@ import (
 	"os"
 	"os/exec"
 	"path/filepath"
+	"regexp"
 	"sort"
 	"strings"
 	"sync"
@@ -26,14 +27,16 @@ type suRelease struct {
 }
 
 type suOutcome struct {
-	Exe int  `json:"exe"`
-	OK  bool `json:"ok"`
+	Exe    int  `json:"exe"`
+	OK     bool `json:"ok"`
+	Latest int  `json:"latest"` // version: the release reported (0: none)
 }
 
 type suCase struct {
 	Cat     []suRelease `json:"cat"`
 	Running int         `json:"running"`
 	Fault   string      `json:"fault"`
+	Cmd     string      `json:"cmd"`
 	Allowed suOutcome   `json:"allowed"`
 	Why     string      `json:"why"`
 }
@@ -42,6 +45,7 @@ type suScenario struct {
 	Cat     []suRelease
 	Running int
 	Fault   string
+	Cmd     string
 	Allowed []suOutcome
 	Whys    []string
 }
@@ -147,22 +151,22 @@ func checkC20(c *Ctx) error {
 		keepMod = 1
 	}
 	consts := func(export bool) map[string]string {
-		return map[string]string{"NoVerify": "= FALSE", "Catalogues": "<- MCCatalogues", "Runnings": "<- MCRunnings", "Faults": "<- MCFaults",
+		return map[string]string{"NoVerify": "= FALSE", "Catalogues": "<- MCCatalogues", "Runnings": "<- MCRunnings", "Faults": "<- MCFaults", "Cmds": "<- MCCmds",
 			"MaxReleases": "= " + maxRel, "Export": "= " + tlaBool(export)}
 	}
 	var mu sync.Mutex
 	scen := map[string]*suScenario{}
 	st, err := c.runTLC(TLCRun{Module: "MC_SelfUpdate", Seed: c.Seed, Timeout: 20 * time.Minute, Workers: 8,
-		Constants: consts(true), Invs: []string{"Integrity", "Reported", "ExportCase"}, Props: []string{"OnlyOnce"}}, func(raw []byte) error {
+		Constants: consts(true), Invs: []string{"Integrity", "Reported", "VersionInert", "ExportCase"}, Props: []string{"OnlyOnce"}}, func(raw []byte) error {
 		var sc suCase
 		if err := mustJSON(raw, &sc); err != nil {
 			return err
 		}
-		key := jsonStr([]any{sc.Cat, sc.Running, sc.Fault})
+		key := jsonStr([]any{sc.Cat, sc.Running, sc.Fault, sc.Cmd})
 		mu.Lock()
 		s := scen[key]
 		if s == nil {
-			s = &suScenario{Cat: sc.Cat, Running: sc.Running, Fault: sc.Fault}
+			s = &suScenario{Cat: sc.Cat, Running: sc.Running, Fault: sc.Fault, Cmd: sc.Cmd}
 			scen[key] = s
 		}
 		s.Allowed = append(s.Allowed, sc.Allowed)
@@ -217,11 +221,70 @@ func checkC20(c *Ctx) error {
 	c.Cov["scenarios_in_model"] = len(scen)
 	c.Cov["traces_validated_against_impl"] = len(keys)
 	c.Cov["cli_executions"] = runs
+	c.Cov["version_lookups_replayed"] = atomic.LoadInt64(&suVersionRuns)
+	c.Cov["version_lookups_that_reported_a_release"] = atomic.LoadInt64(&suVersionReports)
 	c.Cov["exhaustive"] = keepMod == 1
-	c.Cov["rule"] = fmt.Sprintf("TLC explores every scenario (catalogue of 0..%s releases from a pool of 22 release shapes, versions v0.9.0 .. v3.0.0 incl. v2.0.5/v2.0.12/v2.0.13/v2.10.0 x running version {v1.0.0, v2.0.12, development build} x 8 fault positions) through the step machine List/Select/Compare/FetchAsset/FetchSums/Verify/Replace and checks Integrity on every state; 1/%d of the scenarios are replayed: the unmodified binary runs against a scripted fake GitHub (CONNECT proxy + TLS with an ad-hoc CA) and its outcome (executable bytes, exit status) must be one the model allows; non-trivial = catalogue not empty and (fault, bad checksum or bad asset)", maxRel, keepMod)
+	c.Cov["rule"] = fmt.Sprintf("TLC explores every scenario (catalogue of 0..%s releases from a pool of 22 release shapes, versions v0.9.0 .. v3.0.0 incl. v2.0.5/v2.0.12/v2.0.13/v2.10.0 x running version {v1.0.0, v2.0.12, development build} x 8 fault positions x {self-update, version (release look-up outside CI)}) through the step machine List/Select/Compare/FetchAsset/FetchSums/Verify/Replace and checks Integrity on every state; 1/%d of the scenarios are replayed: the unmodified binary runs against a scripted fake GitHub (CONNECT proxy + TLS with an ad-hoc CA) and its outcome (executable bytes, exit status) must be one the model allows; non-trivial = catalogue not empty and (fault, bad checksum or bad asset)", maxRel, keepMod)
 	c.Assumptions = append(c.Assumptions, "the fake release service speaks the subset of the GitHub API that go-selfupdate v1.4.1 uses (release list, browser download URLs, asset API)")
 	c.Summary = fmt.Sprintf("states=%d scenarios=%d replayed=%d", st.Distinct, len(scen), len(keys))
 	return nil
+}
+
+var suVersionRuns, suVersionReports int64
+
+var reLatest = regexp.MustCompile(`(?m)^Latest version is: v?(\d+)\.(\d+)\.(\d+)\s*$`)
+
+// suJudgeVersion: `version' outside CI looks the newest release up and only reports it.
+func suJudgeVersion(c *Ctx, sc *suScenario, res CLIResult, exeSame bool, srv *FghServer, dir string) {
+	bad := func(why string) {
+		c.violation("self-update", map[string]any{"command": "version", "catalogue": sc.Cat, "running": sc.Running, "fault": sc.Fault,
+			"allowed_outcomes": sc.Allowed, "spec_reasons": sc.Whys, "why": why,
+			"real": map[string]any{"exit": res.Exit, "stdout": res.Stdout, "log": lastLine(res.Stderr)}, "requests": srv.Requests()})
+	}
+	if !exeSame {
+		bad("`version' changed the executable")
+		return
+	}
+	if res.Exit != 0 || res.TimedOut {
+		bad(fmt.Sprintf("`version' ended with status %d", res.Exit))
+		return
+	}
+	want := "crs-toolchain " + suTag(sc.Running)
+	if sc.Running == 0 {
+		want = "crs-toolchain "
+	}
+	if !strings.HasPrefix(res.Stdout, want) {
+		bad("`version' does not print the version of the running executable first")
+		return
+	}
+	for _, rq := range srv.Requests() {
+		if strings.Contains(rq, "/assets/") || strings.Contains(rq, "/download/") {
+			bad("`version' requested an asset: " + rq)
+			return
+		}
+	}
+	if left, _ := filepath.Glob(filepath.Join(dir, ".crs-toolchain*")); len(left) > 0 {
+		bad("`version' left files behind")
+		return
+	}
+	latest := 0
+	if m := reLatest.FindStringSubmatch(res.Stdout); m != nil {
+		var a, b, p int
+		fmt.Sscan(m[1], &a)
+		fmt.Sscan(m[2], &b)
+		fmt.Sscan(m[3], &p)
+		latest = a*10000 + b*100 + p
+	}
+	for _, a := range sc.Allowed {
+		if a.Latest == latest {
+			atomic.AddInt64(&suVersionRuns, 1)
+			if latest != 0 {
+				atomic.AddInt64(&suVersionReports, 1)
+			}
+			return
+		}
+	}
+	bad(fmt.Sprintf("`version' reports release code %d (0 = none), which the model does not allow", latest))
 }
 
 func sha(b []byte) string { h := sha256.Sum256(b); return hex.EncodeToString(h[:8]) }
@@ -246,12 +309,20 @@ func suReplay(c *Ctx, name string, sc *suScenario, bin string, runs *int64) {
 		return
 	}
 	defer srv.Stop()
-	res := c.runBinEnv(exe, dir, "", srv.Env(), 60*time.Second, "self-update")
+	env := srv.Env()
+	if sc.Cmd == "version" {
+		env = append(env, "CI=false") // the look-up is skipped in CI
+	}
+	res := c.runBinEnv(exe, dir, "", env, 60*time.Second, sc.Cmd)
 	atomic.AddInt64(runs, 1)
 	if res.Exit == -2 {
 		return // could not be executed: recorded as an infrastructure problem
 	}
 	now, _ := os.ReadFile(exe)
+	if sc.Cmd == "version" {
+		suJudgeVersion(c, sc, res, bytes.Equal(now, orig), srv, dir)
+		return
+	}
 	realExe := -1
 	if bytes.Equal(now, orig) {
 		realExe = 0
